@@ -14,6 +14,12 @@ pub enum Ty {
     Res(Box<Ty>),
     Tup(Vec<Ty>),
     Unit,
+    /// isize, represented by its two's-complement bit pattern in N (casts from/to usize are the identity)
+    ISize,
+    /// a raw pointer, represented by its address
+    Ptr,
+    /// Result<A, B> with a non-error `Err` payload (binary_search): Coq `(A + B)%type`, Ok = inl, Err = inr
+    Either(Box<Ty>, Box<Ty>),
     Unknown,
 }
 
@@ -67,13 +73,53 @@ pub struct Spec {
     pub endian: bool,
     pub newtypes: Vec<&'static str>,
     pub err_enums: Vec<&'static str>,
+    // ---- extensions (loop bodies, prefixes, assignments): see docs/RS2V.md "Step kernels"
+    /// mutable places (`self . field`, or `#i` = the i-th `let mut` before the loop): parameter = value
+    /// on entry, the value at the end is part of the result
+    pub state: Vec<Extra>,
+    /// names/types given POSITIONALLY to the identifiers bound by the loop header pattern
+    /// (`for n in ..`, `while let Some(region) = ..`); Ty::Unit = opaque object (no parameter)
+    pub vars: Vec<(&'static str, Ty)>,
+    /// Step mode: the result is `kstep S R` (KNext state / KBreak state / KReturn value); Coq types of S and R
+    pub step: Option<(&'static str, &'static str)>,
+    /// translate the body of the i-th loop (source order) of the function instead of the function
+    pub loop_idx: Option<usize>,
+    /// translate only the top-level statements before the first one whose token string starts with this
+    pub until: Option<&'static str>,
+    /// type of a parameter, overriding what its Rust type says (e.g. `&Option<FileOffset>` seen as Option<u64>)
+    pub param_tys: Vec<(&'static str, Ty)>,
+    /// canonical names given positionally to the function's parameters (so that `extra` patterns
+    /// mentioning a parameter survive its renaming)
+    pub canon_params: Vec<&'static str>,
+    /// receiver expression -> kernel group whose kernels are its methods
+    pub recv_groups: Vec<(&'static str, &'static str)>,
+    /// methods that are the identity on an integer receiver (`FileOffset::start` on a file offset seen as its start)
+    pub id_methods: Vec<&'static str>,
+    /// `let x = <init>` with this init is dropped and `x` gets the canonical name
+    pub skip_as: Vec<(&'static str, &'static str)>,
+    /// expression (token string) -> Rust expression translated in its place (abstraction, trusted)
+    pub rewrite: Vec<(&'static str, &'static str)>,
+    /// constructor-like calls `Path::name(args)`: (name, kept argument positions) -> tuple of the kept arguments
+    pub ctors: Vec<(&'static str, Vec<usize>)>,
+    /// opaque calls: which argument positions are passed on (default: all)
+    pub argsel: Vec<(&'static str, Vec<usize>)>,
+    /// loops inside the translated statements are ignored (their effect is opaque)
+    pub skip_loops: bool,
+    /// integers the function returns are wrapped in this opaque function (parameter `N -> R`), for
+    /// kernels whose other results are values of opaque calls of the abstract type R
+    pub ret_wrap: Option<&'static str>,
+    /// comment emitted above the definition
+    pub note: &'static str,
 }
 
 impl Spec {
     /// extra parameters of the generated definition (name, Coq type), in order, without repeats
     pub fn extra_params(&self) -> Vec<(String, String)> {
         let mut out: Vec<(String, String)> = vec![];
-        for (p, t) in self.extra.iter().map(|x| (x.param, x.coq_ty)).chain(self.fns.iter().map(|x| (x.param, x.coq_ty))) {
+        for (p, t) in self.extra.iter().map(|x| (x.param, x.coq_ty)).chain(self.fns.iter().map(|x| (x.param, x.coq_ty))).chain(self.state.iter().map(|x| (x.param, x.coq_ty))) {
+            if t.is_empty() {
+                continue;
+            }
             if !out.iter().any(|(q, _)| q == p) {
                 out.push((p.to_string(), t.to_string()));
             }
@@ -97,6 +143,7 @@ impl Spec {
                 let s = p.to_token_stream().to_string();
                 match s.as_str() {
                     "u64" | "usize" | "GuestUsize" | "Self :: V" => return Ty::Int(64),
+                    "isize" | "i64" => return Ty::ISize,
                     "u32" => return Ty::Int(32),
                     "u16" => return Ty::Int(16),
                     "u8" => return Ty::Int(8),
@@ -139,6 +186,9 @@ fn base(module: &'static str, group: &'static str, file: &'static str, name: &'s
         consts: vec![], bitflags: None, endian: false,
         newtypes: vec!["GuestAddress", "MemoryRegionAddress", "AddrT"],
         err_enums: vec!["Error", "MmapRegionError"],
+        state: vec![], vars: vec![], step: None, loop_idx: None, until: None, param_tys: vec![], canon_params: vec![],
+        recv_groups: vec![], id_methods: vec![], skip_as: vec![], rewrite: vec![], ctors: vec![], argsel: vec![],
+        skip_loops: false, ret_wrap: None, note: "",
     }
 }
 
@@ -148,6 +198,16 @@ fn ex(pat: &'static str, param: &'static str, ty: Ty) -> Extra {
         _ => "N",
     };
     Extra { pat, param, coq_ty, ty }
+}
+
+fn ext(pat: &'static str, param: &'static str, coq_ty: &'static str, ty: Ty) -> Extra {
+    Extra { pat, param, coq_ty, ty }
+}
+fn opt(t: Ty) -> Ty {
+    Ty::Opt(Box::new(t))
+}
+fn ofn(method: &'static str, param: &'static str, coq_ty: &'static str, ret: Ty) -> OpaqueFn {
+    OpaqueFn { method, param, coq_ty, ret }
 }
 
 pub fn table() -> Vec<Spec> {
@@ -195,6 +255,111 @@ pub fn table() -> Vec<Spec> {
         s.extra = vec![ex("self . addr as usize", "addr", Ty::Int(64))];
         t.push(s);
     }
+    {
+        let vfile = "src/volatile_memory.rs";
+        let addr_u = || ex("self . addr as usize", "addr", Ty::Int(64));
+        let addr_p = || ex("self . addr", "addr", Ty::Ptr);
+        let vsize = || ex("self . size", "size", Ty::Int(64));
+        let vlen = || ex("self . len ()", "len", Ty::Int(64));
+        let tsize = || ex("size_of :: < T > ()", "tsize", Ty::Int(64));
+        let with_bitmap = || vec![("with_bitmap", vec![0usize, 1usize])];
+        let vs = |name: &'static str, f: &'static str| base("Volatile", "Volatile", vfile, name, f, Loc::Impl { ty: "VolatileSlice", tr: None, f });
+        // VolatileSlice::offset / subslice / split_at: result = (address, size) of the new slice(s)
+        let mut s = vs("vs_offset", "offset");
+        s.extra = vec![addr_u(), addr_p(), vsize()];
+        s.ctors = with_bitmap();
+        t.push(s);
+        let mut s = vs("vs_subslice", "subslice");
+        s.extra = vec![vlen(), addr_p()];
+        s.ctors = with_bitmap();
+        t.push(s);
+        let mut s = vs("vs_split_at", "split_at");
+        s.extra = vec![addr_u(), addr_p(), vsize()];
+        s.ctors = with_bitmap();
+        t.push(s);
+        // Bytes<usize> for VolatileSlice: the two guards of write / read
+        for (name, f, until) in [("vs_write_guard", "write", "buf . read_volatile"), ("vs_read_guard", "read", "buf . write_volatile")] {
+            let mut s = base("Volatile", "Volatile", vfile, name, f, Loc::Impl { ty: "VolatileSlice", tr: Some("Bytes"), f });
+            s.canon_params = vec!["buf", "addr"];
+            s.drop_params = vec!["buf"];
+            s.extra = vec![ex("buf . is_empty ()", "buf_is_empty", Ty::Bool), vsize()];
+            s.until = Some(until);
+            s.step = Some(("unit", "rres N"));
+            t.push(s);
+        }
+        // VolatileMemory::get_array_ref: nbytes = isize::try_from(n).ok().and_then(|n| n.checked_mul(size_of::<T>() as isize)) or TooBig
+        let mut s = base("Volatile", "Volatile", vfile, "get_array_ref_nbytes", "get_array_ref", Loc::Trait("VolatileMemory", "get_array_ref"));
+        s.canon_params = vec!["offset", "n"];
+        s.drop_params = vec!["offset"];
+        s.extra = vec![tsize()];
+        s.until = Some("let slice");
+        s.locals = Some(vec!["nbytes"]);
+        s.step = Some(("N", "rres unit"));
+        t.push(s);
+        // VolatileSlice::copy_to / copy_from: which branch, how many bytes / elements
+        let mut s = vs("vs_copy_to", "copy_to");
+        s.canon_params = vec!["buf"];
+        s.drop_params = vec!["buf"];
+        s.extra = vec![tsize(), ex("buf . len ()", "buf_len", Ty::Int(64)), vlen(), vsize()];
+        s.fns = vec![ofn("copy_from_volatile_slice", "copy_bytes", "N -> R", Ty::Unknown), ofn("array_copy_to", "array_copy_to", "N -> R", Ty::Unknown), ofn("\u{0}ret", "ret", "N -> R", Ty::Unknown)];
+        s.ret_wrap = Some("ret");
+        s.argsel = vec![("copy_from_volatile_slice", vec![2])];
+        s.skip = vec!["self . get_array_ref :: < T > (0 , count) . unwrap ()"];
+        s.rewrite = vec![("source . copy_to (buf)", "array_copy_to (count)")];
+        t.push(s);
+        let mut s = vs("vs_copy_from", "copy_from");
+        s.canon_params = vec!["buf"];
+        s.drop_params = vec!["buf"];
+        s.extra = vec![tsize(), ex("buf . len ()", "buf_len", Ty::Int(64)), vlen(), vsize()];
+        s.effects = vec!["copy_to_volatile_slice", "array_copy_from"];
+        s.argsel = vec![("copy_to_volatile_slice", vec![2])];
+        s.skip = vec!["self . get_array_ref :: < T > (0 , count) . unwrap ()"];
+        s.rewrite = vec![("dest . copy_from (buf)", "array_copy_from (count)")];
+        t.push(s);
+        // ---- VolatileArrayRef
+        let va = |name: &'static str, f: &'static str| base("Volatile", "VolArr", vfile, name, f, Loc::Impl { ty: "VolatileArrayRef", tr: None, f });
+        let nelem = || ex("self . nelem", "nelem", Ty::Int(64));
+        let nelem_l = || ex("self . len ()", "nelem", Ty::Int(64));
+        let esz = || ex("self . element_size ()", "esz", Ty::Int(64));
+        let mut s = va("va_ref_at_byteofs", "ref_at");
+        s.extra = vec![nelem(), esz()];
+        s.locals = Some(vec!["byteofs"]);
+        t.push(s);
+        let mut s = va("va_to_slice", "to_slice");
+        s.extra = vec![addr_p(), nelem(), esz()];
+        s.ctors = with_bitmap();
+        t.push(s);
+        let mut s = va("va_ptr_guard", "ptr_guard");
+        s.extra = vec![addr_p(), nelem_l(), esz()];
+        s.ctors = vec![("read", vec![1, 2])];
+        t.push(s);
+        let mut s = va("va_ptr_guard_mut", "ptr_guard_mut");
+        s.extra = vec![addr_p(), nelem_l(), esz()];
+        s.ctors = vec![("write", vec![1, 2])];
+        t.push(s);
+        // VolatileArrayRef::copy_to / copy_from: the byte fast path vs the element loop (opaque), counts
+        let mut s = va("va_copy_to", "copy_to");
+        s.canon_params = vec!["buf"];
+        s.drop_params = vec!["buf"];
+        s.extra = vec![tsize(), ex("buf . len ()", "buf_len", Ty::Int(64)), addr_p(), nelem(), nelem_l(), esz()];
+        s.fns = vec![ofn("copy_from_volatile_slice", "copy_bytes", "(N * N) -> N -> R", Ty::Unknown), ofn("\u{0}ret", "ret", "N -> R", Ty::Unknown)];
+        s.ret_wrap = Some("ret");
+        s.argsel = vec![("copy_from_volatile_slice", vec![1, 2])];
+        s.rewrite = vec![("source . len ()", "source . 1")];
+        s.skip = vec!["guard . as_ptr () as * const Packed < T >"];
+        s.skip_loops = true;
+        t.push(s);
+        let mut s = va("va_copy_from", "copy_from");
+        s.canon_params = vec!["buf"];
+        s.drop_params = vec!["buf"];
+        s.extra = vec![tsize(), ex("buf . len ()", "buf_len", Ty::Int(64)), addr_p(), nelem(), nelem_l(), esz(), ex("copied_bytes", "copied_bytes", Ty::Int(64))];
+        s.effects = vec!["copy_to_volatile_slice", "mark_dirty"];
+        s.argsel = vec![("copy_to_volatile_slice", vec![2])];
+        s.rewrite = vec![("destination . len ()", "destination . 1"), ("ptr as usize - start as usize", "copied_bytes")];
+        s.skip = vec!["guard . as_ptr ()", "start as * mut Packed < T >"];
+        s.skip_loops = true;
+        t.push(s);
+    }
     // ------------------------------------------------------------------ src/guest_memory.rs
     let gfile = "src/guest_memory.rs";
     let start = || ex("self . start_addr ()", "start", Ty::Addr);
@@ -214,6 +379,23 @@ pub fn table() -> Vec<Spec> {
         // GuestMemory::checked_offset: check_address of the collection (find_region) is opaque
         let mut s = base("Guest", "GuestMemory", gfile, "mem_checked_offset", "checked_offset", Loc::Trait("GuestMemory", "checked_offset"));
         s.fns = vec![OpaqueFn { method: "check_address", param: "check_address", coq_ty: "N -> option N", ret: Ty::Opt(Box::new(Ty::Addr)) }];
+        t.push(s);
+    }
+    {
+        // ONE iteration of the `while let Some(region) = self.find_region(cur)` loop of try_access:
+        // start = region.to_region_addr(cur).unwrap(), cap, len = min(cap, count - total), the callback
+        // (opaque function f total len start), the three-way test on total.checked_add(len) and the
+        // cur.overflowing_add match.  State (total, cur); KReturn = the value try_access returns.
+        let mut s = base("Guest", "GuestMemory", gfile, "try_access_step", "try_access", Loc::Trait("GuestMemory", "try_access"));
+        s.loop_idx = Some(0);
+        s.vars = vec![("region", Ty::Unit)];
+        s.state = vec![ex("#0", "cur", Ty::Addr), ex("#1", "total", Ty::Int(64))];
+        s.step = Some(("N * N", "rres N"));
+        s.canon_params = vec!["count", "addr", "f"];
+        s.drop_params = vec!["addr", "f"];
+        s.extra = vec![ex("region . start_addr ()", "start", Ty::Addr), ex("region . len ()", "len", Ty::Int(64))];
+        s.recv_groups = vec![("region", "GuestRegion")];
+        s.fns = vec![ofn("f", "f", "N -> N -> N -> rres N", Ty::Res(Box::new(Ty::Int(64))))];
         t.push(s);
     }
     // ------------------------------------------------------------------ src/bitmap/backend/slice.rs
@@ -264,6 +446,28 @@ pub fn table() -> Vec<Spec> {
             t.push(s);
         }
     }
+    {
+        // enlarge(&mut self, additional_size): `self.byte_size += ..; self.size = ..; let map_size = ..;`
+        // result KNext (byte_size, size, map_size); `self.map.resize_with(map_size, ..)` is opaque
+        let mut s = bm("enlarge", "enlarge");
+        s.extra = vec![psz()];
+        s.state = vec![ex("self . byte_size", "byte_size", Ty::Int(64)), ex("self . size", "size", Ty::Int(64))];
+        s.locals = Some(vec!["map_size"]);
+        s.until = Some("self . map . resize_with");
+        s.step = Some(("N * N * N", "unit"));
+        s.consts = vec![bits.clone()];
+        t.push(s);
+        // ONE iteration of the bit loop of set_reset_addr_range: `if n >= self.size { break; }`, then
+        // fetch_or / fetch_and on word n >> 6 with mask 1 << (n & 63)
+        let mut s = bm("range_body", "set_reset_addr_range");
+        s.extra = vec![size()];
+        s.loop_idx = Some(0);
+        s.vars = vec![("n", Ty::Int(64))];
+        s.effects = vec!["fetch_or", "fetch_and"];
+        s.step = Some(("unit", "unit"));
+        s.drop_params = vec!["start_addr", "len"];
+        t.push(s);
+    }
     // ------------------------------------------------------------------ src/mmap/mod.rs
     {
         let mut s = base("Mmap", "Mmap", "src/mmap/mod.rs", "check_file_offset", "check_file_offset", Loc::Free("check_file_offset"));
@@ -278,6 +482,66 @@ pub fn table() -> Vec<Spec> {
         s.drop_params = vec!["mapping"];
         s.extra = vec![ex("mapping . size ()", "size", Ty::Int(64))];
         s.fields = vec!["guest_base"];
+        t.push(s);
+    }
+    {
+        let mfile = "src/mmap/mod.rs";
+        let gm = |name: &'static str, f: &'static str, tr: Option<&'static str>| base("Mmap", "GuestMemoryMmap", mfile, name, f, Loc::Impl { ty: "GuestMemoryMmap", tr, f });
+        let either = || Ty::Either(Box::new(Ty::Int(64)), Box::new(Ty::Int(64)));
+        // from_arc_regions: ONE window of `for window in regions.windows(2)`: the first failing
+        // window decides UnsortedMemoryRegions vs MemoryRegionOverlap (KReturn), else KNext
+        let mut s = gm("window_step", "from_arc_regions", None);
+        s.loop_idx = Some(0);
+        s.vars = vec![("window", Ty::Unit)];
+        s.step = Some(("unit", "rres unit"));
+        s.drop_params = vec!["regions"];
+        s.skip_as = vec![("& window [0]", "prev"), ("& window [1]", "next")];
+        s.extra = vec![ex("prev . start_addr ()", "start", Ty::Addr), ex("prev . len ()", "len", Ty::Int(64)), ex("next . start_addr ()", "next_start", Ty::Addr)];
+        s.recv_groups = vec![("prev", "GuestRegion")];
+        t.push(s);
+        // find_region: which index the binary-search result selects (the search itself and
+        // `self.regions[i].last_addr()` are opaque: bs : Ok i | Err i as inl/inr, last_addr_at i)
+        let mut s = gm("find_region_index", "find_region", Some("GuestMemory"));
+        s.locals = Some(vec!["index"]);
+        s.canon_params = vec!["addr"];
+        s.extra = vec![ext("self . regions . binary_search_by_key (& addr , | x | x . start_addr ())", "bs", "(N + N)%type", either())];
+        s.fns = vec![ofn("last_addr", "last_addr_at", "N -> N", Ty::Addr)];
+        t.push(s);
+        // remove_region: Ok only when the search finds the base AND the size matches
+        // (`.get(i).unwrap()` of the found index: size_at i : option N); the value is the removed index
+        let mut s = gm("remove_region", "remove_region", None);
+        s.canon_params = vec!["base", "size"];
+        s.extra = vec![ext("self . regions . binary_search_by_key (& base , | x | x . start_addr ())", "bs", "(N + N)%type", either())];
+        s.fns = vec![ofn("size_at", "size_at", "N -> option N", opt(Ty::Int(64)))];
+        s.rewrite = vec![
+            ("self . regions . get (region_index) . unwrap () . mapping . size ()", "size_at (region_index) . unwrap ()"),
+            ("Ok ((Self { regions } , region))", "Ok (region_index)"),
+        ];
+        s.skip = vec!["self . regions . clone ()", "regions . remove (region_index)"];
+        t.push(s);
+    }
+    // ------------------------------------------------------------------ src/mmap/unix.rs
+    {
+        let ufile = "src/mmap/unix.rs";
+        let b = |name: &'static str, f: &'static str| base("MmapUnix", "MmapUnix", ufile, name, f, Loc::Impl { ty: "MmapRegionBuilder", tr: None, f });
+        // build: the two tests before the file-offset check / mmap call
+        let mut s = b("build_prefix", "build");
+        s.until = Some("let (fd , offset)");
+        s.step = Some(("unit", "rres unit"));
+        s.extra = vec![
+            ex("self . raw_ptr . is_some ()", "has_raw", Ty::Bool),
+            ext("self . build_raw ()", "raw_result", "rres unit", Ty::Res(Box::new(Ty::Unit))),
+            ex("self . flags", "flags", Ty::Int(32)),
+        ];
+        s.consts = vec![("libc :: MAP_FIXED".to_string(), "16".to_string(), Ty::Int(32))];
+        t.push(s);
+        // build_raw: the alignment test; result (addr, owned) of the MmapRegion built
+        let mut s = b("build_raw", "build_raw");
+        s.extra = vec![
+            ex("unsafe { libc :: sysconf (libc :: _SC_PAGESIZE) } as usize", "page_size", Ty::Int(64)),
+            ext("self . raw_ptr", "raw_ptr", "option N", opt(Ty::Ptr)),
+        ];
+        s.fields = vec!["addr", "owned"];
         t.push(s);
     }
     // ------------------------------------------------------------------ src/mmap/xen.rs
@@ -297,6 +561,15 @@ pub fn table() -> Vec<Spec> {
         s.extra = vec![ps(), ex("grant . guest_base . 0", "guest_base", Ty::Int(64))];
         s.drop_params = vec!["grant", "prot"];
         s.locals = Some(vec!["page_base", "offset", "size", "addr"]);
+        t.push(s);
+    }
+    {
+        // validate_file: file offset seen as Option<start>; fd is opaque
+        let mut s = base("Xen", "Xen", xfile, "validate_file", "validate_file", Loc::Free("validate_file"));
+        s.canon_params = vec!["file_offset"];
+        s.param_tys = vec![("file_offset", opt(Ty::Int(64)))];
+        s.extra = vec![ex("file_offset . file () . as_raw_fd ()", "fd", Ty::Int(32))];
+        s.id_methods = vec!["start"];
         t.push(s);
     }
     // ------------------------------------------------------------------ src/endian.rs
@@ -337,6 +610,68 @@ pub fn table() -> Vec<Spec> {
 pub fn module_deps(m: &str) -> Vec<&'static str> {
     match m {
         "Guest" => vec!["Address"],
+        "Mmap" => vec!["Address", "Guest"],
         _ => vec![],
     }
+}
+
+/// Which hand model transcribes which function (file, qualified function name as printed by the
+/// panic-site inventory - a trailing `*` matches any suffix -, model).  Used to classify panic
+/// sites that are not inside a translated kernel.
+pub fn model_table() -> Vec<(&'static str, &'static str, &'static str)> {
+    let v = "src/volatile_memory.rs";
+    let g = "src/guest_memory.rs";
+    let b = "src/bitmap/backend/atomic_bitmap.rs";
+    let m = "src/mmap/mod.rs";
+    let u = "src/mmap/unix.rs";
+    vec![
+        // ---- src/volatile_memory.rs
+        (v, "compute_offset", "Impl/Volatile.v compute_offset"),
+        (v, "VolatileMemory::*", "Impl/Volatile.v vm_*, Impl/VolMem.v"),
+        (v, "VolatileSlice::*", "Impl/Volatile.v vs_*, Impl/VolMem.v vs_*"),
+        (v, "Bytes for VolatileSlice::*", "Impl/VolMem.v vs_read/vs_write/.., Impl/IoGuest.v vs_*_volatile_*"),
+        (v, "VolatileMemory for VolatileSlice::*", "Impl/Volatile.v vs_get_slice"),
+        (v, "VolatileRef::*", "Impl/Volatile.v vr_*, Impl/VolMem.v vr_*"),
+        (v, "VolatileArrayRef::*", "Impl/Volatile.v va_*, Impl/VolMem.v va_*"),
+        (v, "PtrGuard::*", "Impl/Volatile.v guard, Impl/Xen.v"),
+        (v, "PtrGuardMut::*", "Impl/Volatile.v guard, Impl/Xen.v"),
+        (v, "alignment", "Impl/CopyPlan.v alignment"),
+        (v, "copy_single", "Impl/CopyPlan.v copy_single"),
+        (v, "copy_slice_volatile", "Impl/CopyPlan.v copy_slice_volatile"),
+        (v, "copy_slice", "Impl/CopyPlan.v copy_slice"),
+        (v, "copy_slice_impl::*", "Impl/CopyPlan.v, Impl/VolMem.v copy_*_volatile_slice"),
+        // ---- src/guest_memory.rs
+        (g, "GuestMemoryRegion::*", "Impl/Guest.v r_*"),
+        (g, "GuestMemory::*", "Impl/Guest.v gm_*, try_access"),
+        (g, "Bytes for T::*", "Impl/Guest.v gm_read/gm_write/.., Impl/IoGuest.v gm_*"),
+        // ---- bitmaps
+        (b, "AtomicBitmap::*", "Impl/Bitmap.v bm_*"),
+        (b, "Bitmap for AtomicBitmap::*", "Impl/Bitmap.v bm_mark_dirty_o / bm_dirty_at_o"),
+        (b, "Clone for AtomicBitmap::*", "Impl/Bitmap.v bm_clone"),
+        ("src/bitmap/backend/slice.rs", "*", "Impl/Bitmap.v bs_*"),
+        ("src/bitmap/backend/atomic_bitmap_arc.rs", "*", "Impl/Bitmap.v route RArc"),
+        ("src/bitmap/mod.rs", "*", "Impl/Bitmap.v routes (view_*)"),
+        // ---- src/io.rs
+        ("src/io.rs", "*", "Impl/Io.v, Impl/Std.v"),
+        // ---- src/mmap
+        (m, "check_file_offset", "Impl/MmapBuild.v check_file_offset"),
+        (m, "GuestRegionMmap::*", "Impl/MmapBuild.v guest_region_new / from_range, Impl/Mmap.v region_new"),
+        (m, "Bytes for GuestRegionMmap::*", "Impl/Guest.v reg_*, Impl/IoGuest.v"),
+        (m, "GuestMemoryRegion for GuestRegionMmap::*", "Impl/Guest.v reg_get_slice / reg_get_host_address, Impl/Volatile.v gr_*"),
+        (m, "GuestMemoryMmap::*", "Impl/Mmap.v from_arc_regions / insert_region / remove_region"),
+        (m, "GuestMemory for GuestMemoryMmap::*", "Impl/Mmap.v find_region"),
+        (u, "MmapRegionBuilder::*", "Impl/MmapBuild.v build / build_raw"),
+        (u, "MmapRegion::build*", "Impl/MmapBuild.v mr_build*"),
+        (u, "MmapRegion::new", "Impl/MmapBuild.v mr_new"),
+        (u, "MmapRegion::from_file", "Impl/MmapBuild.v mr_from_file"),
+        (u, "Drop for MmapRegion::drop", "Impl/MmapBuild.v drop_region"),
+        (u, "VolatileMemory for MmapRegion::*", "Impl/Volatile.v mr_get_slice_unix"),
+        ("src/mmap/xen.rs", "MmapRegion::fds_overlap", ""), // "" = explicitly unmodelled (first match wins)
+        ("src/mmap/xen.rs", "*", "Impl/Xen.v"),
+        // ---- addresses, endianness
+        ("src/address.rs", "*", "Impl/Address.v"),
+        ("src/endian.rs", "*", "Impl/Endian.v"),
+        ("src/atomic.rs", "*", "Impl/Rcu.v"),
+        ("src/bytes.rs", "ByteValued::*", "Impl/Volatile.v bv_from_slice"),
+    ]
 }
